@@ -156,6 +156,27 @@ def check(ctx):
                 iv[-1].pop('tree_diff')
         else:
             mv.append(m); iv.append({'exit0': c['rc'] == 0})
+    # the hypotheses of `restore_exact_selfcontained` on real backups: a backup whose manifest holds no non-empty
+    # extern record must pass the executable well-formedness check and carry exactly the manifest the theorem assumes,
+    # and then the model's restore is `fsOf` of its archive (the theorem's conclusion, re-evaluated)
+    sc_instances = sc_bad = 0
+    for c, m in zip(cases, model):
+        grp, tgt = c['request']['group'], c['request']['target']
+        if not isinstance(m, dict) or tgt >= len(grp) or not isinstance(m.get('selfcontained'), dict):
+            continue
+        man = grp[tgt].get('manifest')
+        if man is None or any((not r['unique']) and r['size'] > 0 for r in man):
+            continue
+        sc = m['selfcontained']
+        sc_instances += 1
+        desc = {k: c[k] for k in ('history', 'after_run', 'group', 'backup')}
+        if not (sc['wf'] and sc['manifest_eq'] and sc['complete']):
+            sc_bad += 1
+            ctx.violation('correspondence', 'a self-contained backup made by vsb does not satisfy the hypotheses of restore_exact_selfcontained '
+                          '(well-formed archive: %s, manifest as assumed: %s)' % (sc['wf'], sc['manifest_eq']), {'case': desc}, found_input=False)
+        elif m.get('result') != 'done' or m.get('ok') is not True or m.get('fs') != sc['fs']:
+            sc_bad += 1
+            ctx.violation('proof', 'the restore model does not return fsOf(archive) on an instance of restore_exact_selfcontained', {'case': desc}, found_input=False)
     slim = [{k: v for k, v in c.items() if k not in ('contents', 'request')} for c in cases]
     st = core.judge(ctx, slim, mv, iv, lambda c, i: oracle(c), label='restore-exact')
     ctx.coverage.update({
@@ -164,7 +185,7 @@ def check(ctx):
         'rule': 'random histories (add/modify/touch/rename/delete/duplicate/revive/mkdir/symlink/chmod, extreme modes/owners/mtimes incl. pre-1970 and 2^33, hard links, sizes 0..70000 around 4096, unicode/space/120-byte names) interleaved with backups under limits 1..3 x 1..3 changing between runs; '
                 'after every run every retained backup is restored; one evaluation = one restore; non-trivial = a restore made after at least one later run (rotation/deletion may have happened)',
         'samples': [{k: cases[0][k] for k in ('history', 'after_run', 'group', 'backup', 'rc')}],
-        'correspondence': st,
+        'correspondence': st, 'selfcontained_instances': sc_instances, 'selfcontained_hypothesis_failures': sc_bad,
         'disagreements_checked': st['cases'],
     })
     ctx.assumptions += ['restore runs as root; mtime of directories above the items is not compared (they change while other scenarios run)',
